@@ -214,7 +214,7 @@ Qed.
 Lemma readPtr_size_wf strict m rl sid s paddr depth q rl' :
   readPtr strict m rl sid s paddr depth = (Ok q, rl') -> sz_ok q.
 Proof.
-  unfold readPtr. destruct (resolveFarPointer m sid s paddr) as [[[[dsid dst] base] val]| |]; try (intros [= <- _]; discriminate).
+  unfold readPtr. destruct (resolveFarPointer strict m sid s paddr) as [[[[dsid dst] base] val]| |]; try (intros [= <- _]; discriminate).
   destruct (val =? 0); [intros [= <- _]; intros X; discriminate X|].
   destruct (depth =? 0); [intros H; inversion H|]. cbv zeta.
   destruct (pointerType val =? structPointer).
